@@ -492,9 +492,10 @@ theorem addJsonRpcMethod_rel {F : Frames} (hG : TagFrame F.Qg) (d : BDir) (kids 
         · exact RRel.fail
         · exact tagStage_rel hG d kids _ i h
 
-theorem addTags_rel {F : Frames} (hG : TagFrame F.Qg) (d : BDir) {c c' : Cat} (h : F.Rel c c') :
-    RRel F.Rel (addTags d c) (addTags d c') := by
+theorem addTags_rel {F : Frames} (hG : TagFrame F.Qg) (d : BDir) (anc : List Up) {c c' : Cat} (h : F.Rel c c') :
+    RRel F.Rel (addTags d anc c) (addTags d anc c') := by
   unfold addTags
+  split; · exact RRel.fail
   rw [tagsFromDirective_rel hG h.g d]
   apply RRel.bind_same; intro _
   exact h
@@ -613,7 +614,7 @@ theorem addDirective_rel {F : Frames} (hG : TagFrame F.Qg) (banned : List Kind) 
       | exact gen_rel (addProtocol_gen d anc) h
       | exact addJsonRpcMethod_rel hG d kids anc h
       | exact gen_rel (addRpcSchema_gen _ d anc) h
-      | exact addTags_rel hG d h
+      | exact addTags_rel hG d anc h
       | exact RRel.ok h
 
 mutual
